@@ -65,4 +65,61 @@ theorem respellStr_spec (o : FOpts) (hR : o.noEscape) (raw : Bytes) (hj : JStrin
     refine ⟨JsonV.Lemmas.CanonLex.canonQuote_valid _, hq, unqS_canonQuote raw, ?_⟩
     rw [e2, unqS_canonQuote]
 
+/-! ### with an escape option, PreserveRawStrings off: the re-quote branch of ReformatString -/
+
+/-- every option set except PreserveRawStrings together with an escape option (the escape loop over the raw literal) -/
+def FOpts.respellable (o : FOpts) : Prop := o.noEscape ∨ o.preserve = false
+
+theorem respellStr_quote (o : FOpts) (hp : o.preserve = false) (he : (o.html || o.js) = true) (raw : Bytes)
+    (hj : JString (!o.allowInvalidUTF8) raw) :
+    respellStr o raw = (appendQuote ⟨o.html, o.js, o.allowInvalidUTF8, false⟩ (unqS raw)).1 := by
+  obtain ⟨nc, hc⟩ := (JsonV.Props.C11.string_iff_quote raw (!o.allowInvalidUTF8) raw.length).mpr ⟨Nat.le_refl _, by simpa using hj⟩
+  unfold respellStr unqS
+  simp only [hp, Bool.false_and, Bool.false_eq_true, if_false, reformatString, hc, ne_eq, not_true_eq_false, he,
+    Bool.not_true, List.take_length]
+
+theorem quote_spec (f : QFlags) (v : Bool) (raw : Bytes) :
+    (Tok.str (appendQuote f (unqS raw)).1).valid = true ∧ JString v (appendQuote f (unqS raw)).1 ∧
+    unqS (appendQuote f (unqS raw)).1 = unqS raw := by
+  refine ⟨(str_valid_iff _).mpr (JsonV.Props.C11.quote_is_jstring f false _), JsonV.Props.C11.quote_is_jstring f v _, ?_⟩
+  unfold unqS
+  rw [JsonV.Props.C11.unquote_quote_lossy]
+  exact JsonV.Lemmas.QuoteSpec.lossy_of_wellFormed _ (JsonV.Lemmas.QuoteWf.appendUnquote_wellFormed raw)
+
+/-- what respelling does to one literal of the selected mode, for every respellable option set -/
+theorem respellStr_spec' (o : FOpts) (hR : o.respellable) (raw : Bytes) (hj : JString (!o.allowInvalidUTF8) raw) :
+    (Tok.str (respellStr o raw)).valid = true ∧ JString (!o.allowInvalidUTF8) (respellStr o raw) ∧
+    unqS (respellStr o raw) = unqS raw ∧ respellStr o (respellStr o raw) = respellStr o raw := by
+  by_cases hne : o.noEscape
+  · exact respellStr_spec o hne raw hj
+  · have hp : o.preserve = false := by rcases hR with h | h; exact absurd h hne; exact h
+    have he : (o.html || o.js) = true := by
+      cases h1 : o.html <;> cases h2 : o.js <;> simp_all [FOpts.noEscape]
+    have e1 := respellStr_quote o hp he raw hj
+    obtain ⟨q1, q2, q3⟩ := quote_spec ⟨o.html, o.js, o.allowInvalidUTF8, false⟩ (!o.allowInvalidUTF8) raw
+    rw [e1]
+    refine ⟨q1, q2, q3, ?_⟩
+    rw [respellStr_quote o hp he _ q2, q3]
+
+/-! ### every option set, strict UTF-8: the text of each literal is preserved (slice C11 `reformat_meaning_strict`) -/
+
+theorem reformatString_snd (f : QFlags) (raw : Bytes) (nc : Bool)
+    (hc : consumeString (!f.allowInvalid) raw = (raw.length, Err.ok, nc)) :
+    (reformatString f raw).2 = (raw.length, Err.ok) := by
+  simp only [reformatString, hc, ne_eq, not_true_eq_false, if_false]
+  split
+  · rfl
+  · split <;> rfl
+
+theorem respellStr_meaning_strict (o : FOpts) (hu : o.allowInvalidUTF8 = false) (raw : Bytes) (hj : JString true raw) :
+    unqS (respellStr o raw) = unqS raw := by
+  unfold respellStr
+  split
+  · rfl
+  · obtain ⟨nc, hc⟩ := (JsonV.Props.C11.string_iff_quote raw true raw.length).mpr ⟨Nat.le_refl _, by simpa using hj⟩
+    have hs := reformatString_snd ⟨o.html, o.js, o.allowInvalidUTF8, o.preserve⟩ raw nc (by simpa [hu] using hc)
+    have := JsonV.Props.C11.reformat_meaning_strict ⟨o.html, o.js, o.allowInvalidUTF8, o.preserve⟩ raw hu (by rw [hs])
+    rw [hs] at this
+    simpa [unqS] using this
+
 end JsonV.Fmt
